@@ -326,6 +326,12 @@ def generate(rng, tier, run):
                           rng.random() < 0.5],
                          ['parser', rng.choice(['general', 'single', 'expression']), p0, False, rng.random() < 0.5]] + steps[:2]
                 d = rng.choice(['', ' ', '~', '*']) + d
+                if rng.random() < 0.4:
+                    # the text ends where an argument is still expected
+                    k1x = docgen.base_kind(recipes[ci]) in ('K1', 'K2')
+                    d = d + rng.choice([' \\mb', '\\mx*', ' \\my[o]', '\\fin'] if k1x else
+                                       [' \\emph', '\\section', ' \\frac{a}', '\\sqrt', ' \\textbf'])
+                    steps = [['general'], ['general']] + steps[:2]
                 ops.append(['reuse', ci, d, tolerant, steps, True, True])
             else:
                 ops.append(['reuse', ci, d, tolerant, steps, rng.random() < 0.4, rng.random() < 0.4])
@@ -334,7 +340,15 @@ def generate(rng, tier, run):
             if kind == 'strict_error':
                 ops.append(['abort', ci, docgen.faulty_variant(rng, doc), 'strict_error', 0])
             elif kind == 'callback':
-                if rng.random() < 0.4:
+                if docgen.base_kind(recipes[ci]) in ('K1', 'K2') and rng.random() < 0.35:
+                    # a callback that has a visible effect and fails for this input only; the same
+                    # macro is used again afterwards
+                    i = rng.randrange(len(doc) + 1)
+                    ops.append(['abort', ci, doc[:i] + rng.choice(['\\fin{bad}', '\\fin{}', '\\fim[o]{bad}', '\\mb{\\fin{bad}}']) + doc[i:],
+                                'callback', 0])
+                    ops.append(['parse', ci, rng.choice(['\\fin{ok} t', 'x \\fim[o]{fine} \\fin{y}', doc + ' \\fin{z}']),
+                                rng.random() < 0.3, ['general']])
+                elif rng.random() < 0.4:
                     # the callback fails deep inside nested structure
                     d = rng.choice([10, 25, 40])
                     o, c = rng.choice([('{', '}'), ('\\mb{', '}'), ('\\mx*[', ']{z}')])
@@ -1248,7 +1262,7 @@ COMPONENTS = {
              'reference = pristine fork of the worker and a companion interpreter under another PYTHONHASHSEED'],
 }
 TIERS = {
-    'quick': {'runs': 4500, 'wall_cap': 400},
+    'quick': {'runs': 3600, 'wall_cap': 400},
     'thorough': {'runs': 90000, 'wall_cap': 3600},
 }
 EXPECTED_PROBES = ['second-use-of-stateful-shared-parser', 'RecursionError-raised',
